@@ -159,3 +159,53 @@ func Verif_C08_runlength_total() {
 		verifrt.Assert(verifrt.Equal(out, want), "decoded data equals the reference")
 	}
 }
+
+// verifBlocks builds a literal stretch of l bytes without three equal
+// neighbours (concrete), a run of r copies of a symbolic byte and a short
+// symbolic tail: every position of a run relative to the 128-byte literal
+// block and run limits.
+func verifBlocks() []byte {
+	maxL := 140
+	if verifrt.Tier() > 0 {
+		maxL = 300
+	}
+	l := verifrt.Len("stretch", 0, maxL)
+	runs := []int{1, 2, 3, 4, 127, 128, 129, 130}
+	r := runs[verifrt.Choice("run", len(runs))]
+	t := verifrt.Len("tail", 0, 1)
+	c := verifrt.Byte("c")
+	data := make([]byte, 0, l+r+t)
+	for i := 0; i < l; i++ {
+		data = append(data, "ABBCAC"[i%6])
+	}
+	for i := 0; i < r; i++ {
+		data = append(data, c)
+	}
+	if t > 0 {
+		data = append(data, verifrt.Byte("d"))
+	}
+	return data
+}
+
+func Verif_C06_runlength_block_boundaries() {
+	verifrt.Unwind(4000)
+	data := verifBlocks()
+	split := len(data)
+	if verifrt.Choice("split", 2) == 1 {
+		split = len(data) / 2
+	}
+	enc := verifEncode(data, split)
+	r := Decode(&verifrt.ChunkReader{Data: enc, EOF: io.EOF})
+	out, err, exhausted := verifrt.ReadAll(r, 100, len(data)/50+16)
+	verifrt.Assert(!exhausted && err == io.EOF, "decoder ends with io.EOF")
+	verifrt.Assert(verifrt.Equal(out, data), "decode(encode(x)) == x")
+}
+
+func Verif_C07_runlength_block_boundaries_vs_reference() {
+	verifrt.Unwind(4000)
+	data := verifBlocks()
+	enc := verifEncode(data, len(data))
+	out, ok := refRLDecode(enc)
+	verifrt.Assert(ok, "reference decoder accepts library output")
+	verifrt.Assert(verifrt.Equal(out, data), "reference decoder reproduces the input")
+}
